@@ -124,6 +124,12 @@ func panicText(pv any) string {
 // one performs one call of the table on one input.
 func (r *runner) one(fam string, e *entry, in input, k string, mode int) {
 	c := r.c
+	if collector != nil {
+		collector.collect(c, e, in)
+
+		return
+	}
+
 	c.Eval()
 	c.Family(fam)
 	c.InFlight(e.id + " " + k)
@@ -236,6 +242,12 @@ func main() {
 
 		checkComplete(c, repoDir())
 		selfTest()
+		if raceMode() {
+			runRaceMode(c, r)
+
+			return
+		}
+
 		generate(r)
 	})
 }
